@@ -9,7 +9,8 @@ Everything happens in two scratch worktrees of /repo under /tmp (removed afterwa
 and the following is established by running, not by trusting the sub-agent:
   1. the patch applies and the package imports (and, for .pyx, compiles);
   2. the test suite has the same outcome for every test in both trees
-     (tests listed as flaky in /root/.vp/BASELINE.json are ignored);
+     (tests listed as flaky in /root/.vp/BASELINE.json are ignored, and so are pass<->xfail
+     flips of the wall-clock benchmarks under benchmarks/);
   3. demo.py exits 0 on base and non-zero on patched.
 This is the demonstration step only; the static checks are run separately with
 tools/try_patch.py (they never execute catii).
@@ -83,6 +84,10 @@ def main():
             fp = ex.submit(outcomes, wp, "p")
             ob, op = fb.result(), fp.result()
         diff = {k: (ob.get(k), op.get(k)) for k in set(ob) | set(op) if ob.get(k) != op.get(k) and not any(k.replace("::", ".").startswith(f.rsplit("::", 1)[0]) and k.endswith(f.rsplit("::", 1)[-1]) for f in flaky)}
+        # benchmarks/ tests xfail on a wall-clock threshold: pass <-> skip(xfail) flips there are load noise
+        timing = {k: v for k, v in diff.items() if k.startswith("benchmarks.") and set(v) <= {"pass", "skip"}}
+        diff = {k: v for k, v in diff.items() if k not in timing}
+        report["timing_flips_ignored"] = sorted(timing)
         report["suite"] = {"tests": len(ob), "base_pass": sum(v == "pass" for v in ob.values()), "patched_pass": sum(v == "pass" for v in op.values()), "outcome_changes": diff}
         rb, outb = sh("%s %s" % (PY, demo), env=dict(os.environ, PYTHONPATH=wb + "/src"), cwd=root, timeout=900)
         rp, outp = sh("%s %s" % (PY, demo), env=dict(os.environ, PYTHONPATH=wp + "/src"), cwd=root, timeout=900)
